@@ -80,6 +80,10 @@ impl Out {
         }
     }
     pub fn emit(&mut self, v: Value) {
+        // hard bound on the size of a trace file (a looping implementation must not fill the disk)
+        if self.events > 3_000_000 {
+            return;
+        }
         serde_json::to_writer(&mut self.w, &v).expect("write trace");
         self.w.write_all(b"\n").expect("write trace");
         self.events += 1;
